@@ -615,6 +615,9 @@ func TestRegress(t *testing.T) { checker.Regress(t) }
 
 func TestProp(t *testing.T) { checker.Prop(t, genCase) }
 
+// FuzzProp: the same generator driven by the native coverage-guided fuzzer (thorough tier only).
+func FuzzProp(f *testing.F) { checker.Fuzz(f, genCase) }
+
 // TestGrid: a few fixed histories (the two cited survivors' minimal witnesses among them).
 func TestGrid(t *testing.T) {
 	vk.SetPhase("grid")
